@@ -190,9 +190,9 @@ def make_fakes():
     return fakes
 
 
-def _nbtype(x):
-    fk = sys.modules.get('numba')
-    T = fk.types
+def _nbtype(x, T=None):
+    if T is None:
+        T = sys.modules.get('numba').types
     if isinstance(x, (bool, sc.SB)):
         return T.Boolean()
     if isinstance(x, (int, sc.SI)) or (hasattr(x, 'dtype') and x.dtype.kind in 'iu'):
@@ -241,9 +241,9 @@ class Loaded:
             for (func, impl) in GENERATED[n0:]:
                 for mod in list(self.mods.values()):
                     if getattr(mod, func.__name__, None) is func:
-                        def make(impl):
+                        def make(impl, T=fakes['numba'].types):
                             def disp(*args):
-                                return impl(*[_nbtype(a) for a in args])(*args)
+                                return impl(*[_nbtype(a, T) for a in args])(*args)
                             disp.__name__ = func.__name__
                             return disp
                         setattr(mod, func.__name__, make(impl))
